@@ -12,7 +12,8 @@ RULE = (
     "or at every pull (aggregations) the consumer drops what it received, gc.collect() runs and the live source items are "
     "counted; the maximum over the run must stay within a small constant per source plus the tool's documented window "
     "(batch size, n of nlargest/nsmallest, one head per source for merge, lead of the fastest over the slowest live child "
-    "for tee) and must not grow between the two stream sizes. tee: lockstep, bounded lead, lag-then-catch-up, early close of a "
+    "for tee) and must not grow between the two stream sizes. groupby: no key / identity key / derived key x all-distinct, "
+    "runs, one run, alternating streams x groups drained / skipped / first item only / re-advanced after they ended. tee: lockstep, bounded lead, lag-then-catch-up, early close of a "
     "started child, child closed before it was started, child ended by an exception thrown in / by a transient source error. non-trivial = every case; distinct by (tool, pattern, N)"
 )
 EXHAUSTIVE = {"quick": False, "thorough": False}
@@ -98,8 +99,48 @@ TEE_PATTERNS = ["lockstep", "lead5", "lag-then-catch-up", "close-started-child",
                 "child-killed-by-athrow", "child-killed-by-source-error"]
 
 
+GROUPBY_KEYS = {"nokey": None, "identity": lambda x: x, "derived": lambda x: x.key}
+GROUPBY_SHAPES = {"all-distinct": lambda i: i, "runs-of-3": lambda i: i // 3, "one-run": lambda i: 0, "alternating": lambda i: i % 2}
+GROUPBY_USE = ["drain-groups", "skip-groups", "first-of-each", "re-advance-finished-group"]
+
+
+def _run_groupby(keyname, shape, use, n):
+    refs = []
+    src = Source(n, refs, keyf=GROUPBY_SHAPES[shape])
+    keyf = GROUPBY_KEYS[keyname]
+    g = A.groupby(src) if keyf is None else A.groupby(src, key=keyf)
+    worst = 0
+    while True:
+        res = drive(g.__anext__())
+        if res.exc is not None:
+            break
+        k, grp = res.value
+        res.value = None
+        del res, k
+        if use != "skip-groups":
+            while True:
+                r = drive(grp.__anext__())
+                if r.exc is not None:
+                    if use == "re-advance-finished-group":
+                        r = drive(grp.__anext__())
+                    break
+                r.value = None
+                del r
+                worst = max(worst, alive(refs))
+                if use == "first-of-each":
+                    break
+            r = None
+        del grp
+        worst = max(worst, alive(refs))
+    return worst
+
+
 def cases(tier, rng):
     sizes = (60, 240) if tier == "quick" else (200, 2000)
+    for keyname in GROUPBY_KEYS:
+        for shape in GROUPBY_SHAPES:
+            for use in GROUPBY_USE:
+                yield {"tool": "groupby", "family": "groupby", "key": keyname, "shape": shape, "use": use, "sizes": list(sizes)}
     for name in TOOLS:
         yield {"tool": name, "family": "gen", "sizes": list(sizes)}
     for name in AGGS:
@@ -220,6 +261,8 @@ def observe(case):
             runs.append(_run_gen(case["tool"], n))
         elif case["family"] == "agg":
             runs.append(_run_agg(case["tool"], n))
+        elif case["family"] == "groupby":
+            runs.append(_run_groupby(case["key"], case["shape"], case["use"], n))
         else:
             runs.append(_run_tee(case["pattern"], case["children"], n))
     out["runs"] = runs
@@ -232,6 +275,8 @@ def bound(case):
         return 2 * nsrc + window + SLACK
     if case["family"] == "agg":
         return 2 + AGGS[case["tool"]][1] + SLACK
+    if case["family"] == "groupby":
+        return 3 + SLACK    # itertools.groupby keeps tgtkey, currkey, currvalue
     return 2 + SLACK     # tee: excess over the lead of the fastest over the slowest live child
 
 
@@ -248,6 +293,8 @@ def judge(case, obs, model):
     else:
         vals = obs["runs"]
         what = case["tool"]
+        if case["family"] == "groupby":
+            what = "groupby:%s:%s:%s" % (case["key"], case["shape"], case["use"])
     if any(v < 0 for v in vals) and case["family"] != "tee":
         issues.append(Issue("oracle", {"runs": obs["runs"]}, "aggregation-failed:" + what))
     elif max(vals) > b or vals[-1] > vals[0] + SLACK:
